@@ -16,6 +16,7 @@ use vstd::prelude::*;
 use std::fmt::Debug;
 use std::hash::Hash;
 verus! {
+broadcast use {callback_facts::clone_keeps_behaviour, callback_facts::clone_keeps_callable};
 
 
 #[derive(Clone, Copy)]
@@ -243,6 +244,8 @@ impl<K, V> RecursiveContext<K, V> where K: Hash + Eq + Debug + Clone, V: Debug +
     requires
         // `V::clone` returns an equal value (the derived Clone of the answer type)
         forall|a: V, b: V| call_ensures(V::clone, (&a,), b) ==> a == b,
+        // the caller's callback may be called
+        should_continue.requires(()),
         // machine arithmetic: the graph holds fewer than usize::MAX nodes
         old(self).graph().nodes().len() < usize::MAX,
     ensures
@@ -256,13 +259,16 @@ impl<K, V> RecursiveContext<K, V> where K: Hash + Eq + Debug + Clone, V: Debug +
             ==> final(self).graph().nodes().len() == old(self).graph().nodes().len(),
         // ... cached in one batch headed by this goal and carrying the returned answer,
         old(self).is_new(*goal) && final(self).lastit().minimums.pos() >= old(self).graph().nodes().len() && old(self).has_cache()
+            && (forall|b: bool| should_continue.ensures((), b) ==> b)      // the caller does not ask to stop
             ==> final(self).graph().moved() == final(self).lastit().moved_after + 1
                 && final(self).graph().last_moved().len() > 0
                 && final(self).graph().last_moved()[0].goal == *goal
                 && final(self).graph().last_moved()[0].solution == r
                 && final(self).graph().last_moved()[0].stack_depth is None,
-        // ... or discarded when caching is disabled
-        old(self).is_new(*goal) && final(self).lastit().minimums.pos() >= old(self).graph().nodes().len() && !old(self).has_cache()
+        // ... or discarded when caching is disabled, or when the caller has asked to stop (C11: an interrupted solve leaves
+        // only provisional answers)
+        old(self).is_new(*goal) && final(self).lastit().minimums.pos() >= old(self).graph().nodes().len()
+            && (!old(self).has_cache() || (forall|b: bool| should_continue.ensures((), b) ==> !b))
             ==> final(self).graph().moved() == final(self).lastit().moved_after,
         // (F4) SCC incomplete: nothing becomes permanent; the node stays, provisional, with its links recorded
         old(self).is_new(*goal) && final(self).lastit().minimums.pos() < old(self).graph().nodes().len()
@@ -274,4 +280,16 @@ impl<K, V> RecursiveContext<K, V> where K: Hash + Eq + Debug + Clone, V: Debug +
 //@END
 
 } // verus!
+pub mod callback_facts {
+use vstd::prelude::*;
+verus! {
+/// ASSUMED: cloning the caller's callback gives a callback that behaves the same (the derived / closure `Clone`)
+pub broadcast axiom fn clone_keeps_behaviour<F: core::ops::Fn() -> bool + Clone>(f: &F, g: F, b: bool)
+    requires #[trigger] call_ensures(F::clone, (f,), g), #[trigger] g.ensures((), b),
+    ensures f.ensures((), b);
+pub broadcast axiom fn clone_keeps_callable<F: core::ops::Fn() -> bool + Clone>(f: &F, g: F)
+    requires #[trigger] call_ensures(F::clone, (f,), g), f.requires(()),
+    ensures g.requires(());
+}
+}
 fn main() {}
